@@ -63,6 +63,8 @@ func (m *Machine) Step(t *rapid.T, failPct int) {
 		m.ActReload(t)
 	case "save":
 		m.ActSave(t)
+	case "restart":
+		m.ActRestartProbe(t)
 	}
 }
 
@@ -175,7 +177,7 @@ func TestC07Sim(t *testing.T) {
 	cfg := &Cfg{Prop: "C07", MaxPipelines: 2, MaxTasks: 2, DelayPct: 75, ReplacePct: 70,
 		LimitChoices: []int{-1, 1, 1, 2, 3}, Weights: map[string]int{"schedule": 45, "cancel": 8, "finish": 22, "timer": 20, "hold": 1, "release": 2, "reload": 4},
 		ReloadKinds: []string{"strategy", "strategy", "limit"},
-		Armed: map[string]bool{"C07": true}}
+		Armed:       map[string]bool{"C07": true}}
 	runHistories(t, histOpts{cfg: cfg, failPct: 10,
 		rule:       "histories over pipelines with start_delay (timer expiry delivered by the harness through StartDelayedJob, also late and out of order) and the replace strategy; oracle: no start before the job's timer, a replaced job never starts, only the most recently queued job is replaced, a job whose delay expired starts when a slot is free (quiescent obligation), after the drain the newest accepted job ran unless canceled; reloads only switch the strategy or the queue limit, so that replace also meets queues of several waiting jobs; non-trivial = a burst of >=3 requests inside one delay window under replace, or a timer that expired while the pipeline was busy; distinct by action trace",
 		nontrivial: func(c map[string]int) bool { return c["replaced"] >= 2 || c["timer:while-busy"] > 0 }})
@@ -209,4 +211,16 @@ func TestC16(t *testing.T) {
 	runHistories(t, histOpts{cfg: cfg, failPct: 0,
 		rule:       "histories with reloads (1-3 edits: task added/removed/rewired, script/env changed, delay added/removed/changed, limits/strategy changed, pipeline added/removed) landing while jobs wait, wait with pending delay, or run between tasks (hold); oracle: per job a deep copy of its pipeline at accept time - the runner log must show exactly those tasks/commands/env/dependencies, the job carries that delay and does not start before its own timer; the reload call itself changes no job and causes no runner activity; after the drain no job of a still-defined pipeline is stranded; nobody canceled => plain success; non-trivial = a reload while the edited pipeline had a waiting and a running job; distinct by action trace",
 		nontrivial: func(c map[string]int) bool { return c["reload:with-waiting"] > 0 && c["reload:with-running"] > 0 }})
+}
+
+// C10 (simulated part): restart from any persisted snapshot recovers a consistent, faithful state.
+func TestC10Sim(t *testing.T) {
+	cfg := &Cfg{Prop: "C10", MaxPipelines: 2, MaxTasks: 3, DelayPct: 30, ReplacePct: 20, CyclicPct: 5, AllowFailPct: 25, ContinuePct: 40, DiskStore: true, RichPayload: true,
+		LimitChoices: []int{-1, -1, 2, 3, 0}, Weights: map[string]int{"schedule": 32, "cancel": 10, "finish": 30, "timer": 8, "hold": 4, "release": 5, "restart": 9},
+		Armed: map[string]bool{"C10": true}}
+	runHistories(t, histOpts{cfg: cfg, failPct: 30,
+		rule: "simulator histories over a real JsonDataStore with rich payloads (variables of every JSON shape incl. non-integer numbers, odd users, error texts, exit codes over int16); at generated points (any state: loops held, tasks mid-run, jobs waiting with pending timers) the reported state of every job is recorded (Go API at full precision and /job/detail JSON), the store is saved and a second runner is built from the same directory; oracle: every job terminal, running/waiting ones canceled, every pipeline schedulable and not running, id set unchanged, finished jobs reported field by field as before (flags, timestamps, tasks with status/exit code/error, variables by deep equality, user, last error); non-trivial = a probe whose snapshot holds a finished job and a running or waiting job, in a history with a failed task or a non-integer number; distinct by action trace",
+		nontrivial: func(c map[string]int) bool {
+			return c["restart:with-finished"] > 0 && (c["restart:with-running"] > 0 || c["restart:with-waiting"] > 0) && (c["restart:with-failed-task"] > 0 || c["payload:non-integer-number"] > 0)
+		}})
 }
